@@ -305,6 +305,9 @@ func genQuery(r *rand.Rand, nss []*namespace.Namespace, ts []Tup) Tup {
 	if r.Intn(30) == 0 {
 		q.NS = "Unknown"
 	}
+	if r.Intn(25) == 0 {
+		q.Rel = "" // an object reference: no relation
+	}
 	q.Sub = Sub{ID: r.Intn(3)}
 	if r.Intn(8) == 0 {
 		nsx := pick(r, nss)
